@@ -1,6 +1,6 @@
 SPECIFICATION Spec
-CONSTANT MaxLen = 3
-CONSTANT Alpha = "mem"
+CONSTANT MaxLen = 4
+CONSTANT Alpha = "rf4"
 INVARIANT WellFormed
 INVARIANT Forward
 INVARIANT Connected
